@@ -225,6 +225,21 @@ def build_props(pid: str, *, timeout: int = 900, extra_targets: list[str] = ()) 
     return ProofResult(ok, len(theorems), len(theorems) if rc == 0 else 0, theorems, assumptions, log, broken)
 
 
+_BUILT: set[str] = set()
+
+
+def ensure_built(imports: str) -> None:
+    """The modules a case file imports need not be in the dependency cone of Props/<pid>.vo (which prove() builds): on a fresh
+    checkout their .vo files do not exist yet.  Build them (and Model/Val.vo) through coq/mk.sh once per process."""
+    mods = {"Model.Val"}
+    for stmt in re.findall(r"From\s+V\s+Require\s+(?:Import|Export)\s+(.*?)\.(?:\s|$)", imports + " ", flags=re.S):
+        mods.update(x for x in stmt.split() if re.fullmatch(r"[A-Za-z_][\w.]*", x))
+    todo = sorted(m for m in mods if m not in _BUILT and not (COQ / (m.replace(".", "/") + ".vo")).exists())
+    _BUILT.update(mods)
+    if todo:
+        sh([str(COQ / "mk.sh"), *[m.replace(".", "/") + ".vo" for m in todo]], timeout=1800)
+
+
 def coq_failing(imports: str, fn: str, cases: list[tuple[t.Any, t.Any]], *, tag: str,
                 shard: int = 400, timeout: int = 600) -> tuple[list[int], str]:
     """Evaluate the model wrapper `fn : val -> val` on every case input inside
@@ -232,6 +247,7 @@ def coq_failing(imports: str, fn: str, cases: list[tuple[t.Any, t.Any]], *, tag:
     (implementation) output.  Returns (failing indices, log)."""
     cdir = COQ / "Cases"
     cdir.mkdir(exist_ok=True)
+    ensure_built(imports)
     tag = f"{tag}_p{os.getpid()}"      # concurrent runs of the same check must not share case files
     files = []
     for k in range(0, len(cases), shard):
